@@ -26,7 +26,7 @@ def gen_data(rng, quick):
                 var_positional=vp,
                 keyword_only=tuple("k%d" % i for i in range(rng.randint(0, 2))) if is_fn and rng.random() < 0.4 else (),
                 var_keyword=vk)
-    doc = rng.choice([None, None, "the docstring"]) if is_fn else None
+    doc = rng.choice([None, None, "the docstring", ""]) if is_fn else None      # the empty docstring owns slot 0 too
     ftype = rng.choice([None, None, "GENERATOR", "COROUTINE", "ASYNC_GENERATOR"]) if is_fn else None
     tp = Function(args, doc, ftype) if is_fn else None
     freevars = tuple("fv%d" % i for i in range(rng.choice([0, 0, 1, 3, 258])))
